@@ -329,6 +329,10 @@ def check_open(mir_text, src, label, entry, readonly):
             v_r3.append({"why": "mapping pointer/length not obtained from the map object on an accepting path", "calls": [x["func"] for x in effs][-6:]})
             continue
         P, L = f["P"], z64(f["L"])
+        # ---- R3 / R4: an accepted mapping holds the header prefix ----
+        okp, _ = prove(ex, e.guard, acc, z3.UGE(L, f["dofs"]))
+        if not okp:
+            v_r3.append({"field": "capacity", "why": "a file can be opened although the mapping is shorter than the header prefix (data_offset() > capacity())"})
         # ---- R1 ----
         if readonly:
             for w in writes:
